@@ -248,6 +248,8 @@ func baseSteps(tier string) []Step {
 		st("[*,0]", "(union * (i 0))", "union", true),
 		st("[1:]", "(union (s 1 _ _))", "slice", true),
 		st("[::-1]", "(union (s _ _ -1))", "slice", true),
+		st("[::2]", "(union (s _ _ 2))", "slice", true),
+		st("[1::-2]", "(union (s 1 _ -2))", "slice", true),
 		{Text: "[7002:7003]", Ast: "(union (s (h lo) (h hi) _))", Kind: "slice", Multi: true, Holes: "7002=lo;7003=hi", Depth: 1},
 		{Text: "..a", Ast: "(desc (name a))", Kind: "desc", Multi: true, Depth: 2},
 		{Text: "..*", Ast: "(desc (wild))", Kind: "desc", Multi: true, Depth: 2},
@@ -266,7 +268,7 @@ func baseSteps(tier string) []Step {
 			st("[1]", "(union (i 1))", "index", false),
 			st("[0,1:2]", "(union (i 0) (s 1 2 _))", "union", true),
 			st("[0:2]", "(union (s 0 2 _))", "slice", true),
-			st("[::2]", "(union (s _ _ 2))", "slice", true),
+			st("[1::3]", "(union (s 1 _ 3))", "slice", true),
 			Step{Text: "..[*]", Ast: "(desc (wild))", Kind: "desc", Multi: true, Depth: 2},
 			Step{Text: "..[0,1]", Ast: "(desc (union (i 0) (i 1)))", Kind: "desc", Multi: true, Depth: 2},
 			Step{Text: "..[0:1]", Ast: "(desc (union (s 0 1 _)))", Kind: "desc", Multi: true, Depth: 2},
@@ -320,6 +322,13 @@ func mkPath(steps ...Step) Path {
 		}
 		p.Funcs = p.Funcs || s.Funcs
 		p.RootOp = p.RootOp || s.RootOp
+	}
+	for _, s := range steps {
+		if s.Kind == "agg" {
+			// the values handed to an aggregate may themselves be arrays: one more document level
+			p.Depth++
+			break
+		}
 	}
 	p.Ast = "(path " + strings.Join(asts, " ") + ")"
 	var texts []string
@@ -430,6 +439,21 @@ func filterPaths(tier string, rng *rand.Rand) []Path {
 		out = append(out, mkPath(filterStep(e)))
 	}
 	return out
+}
+
+// widePaths produce more than 16 results from small documents (result buffers grow and are reallocated).
+func widePaths() []Path {
+	rep := func(s string, n int) string { return strings.TrimSuffix(strings.Repeat(s+",", n), ",") }
+	repAst := func(s string, n int) string { return strings.TrimSuffix(strings.Repeat(s+" ", n), " ") }
+	return []Path{
+		mkPath(Step{Text: "[" + rep("0", 20) + "]", Ast: "(union " + repAst("(i 0)", 20) + ")", Kind: "union", Multi: true, Depth: 1}),
+		mkPath(Step{Text: "[" + rep("*", 10) + "]", Ast: "(multi " + repAst("*", 10) + ")", Kind: "multi", Multi: true, Depth: 1}),
+		mkPath(Step{Text: "[" + rep("'a'", 18) + "]", Ast: "(multi " + repAst("(n a)", 18) + ")", Kind: "multi", Multi: true, Depth: 1}),
+		mkPath(Step{Text: "[" + rep("0", 9) + "]", Ast: "(union " + repAst("(i 0)", 9) + ")", Kind: "union", Multi: true, Depth: 1},
+			Step{Text: "[*,*]", Ast: "(multi * *)", Kind: "multi", Multi: true, Depth: 1}),
+		mkPath(Step{Text: "[" + rep("*", 9) + "]", Ast: "(multi " + repAst("*", 9) + ")", Kind: "multi", Multi: true, Depth: 1},
+			Step{Text: ".agg()", Ast: "(agg agg)", Kind: "agg", Funcs: true}),
+	}
 }
 
 func dedupPaths(ps []Path) []Path {
